@@ -215,6 +215,11 @@ def setSubtensorScalar [Zero α] [BEq α] (S : Sparse α) (parts : List RPart) (
   let idx ← regionIdx shape' parts
   .ok (regionScalarApply S shape' idx v)
 
+/-- A (rewritten) key element is an integer. -/
+def _root_.Pyttb.RPart.isInt : RPart → Bool
+  | .int _ => true
+  | _ => false
+
 /-- `tt_irenumber(value, shape, key)` for one stored subscript of the value: walk the
 key; a slice / list maps the next value coordinate through its index list, an integer
 inserts itself. -/
@@ -231,45 +236,64 @@ def irenumberRow : List (List Nat × Bool) → List Nat → Except Reject (List 
       .ok (l.getD x 0 :: rest)
     else .error .reject
 
-/-- `_set_subtensor(key, value)` for a sparse-tensor right-hand side `V`. -/
+/-- One entry of the new size of `_set_subtensor` for a sparse-tensor right-hand side.
+`vm` is the extent of the value's next unused mode (`value.shape[m]`, an `IndexError` when
+there is none and it is needed); the flag says whether the element uses up a value mode
+(`m = m + 1`: slices and index lists). -/
+def newExtSparse (ext : Option Nat) (vm : Option Nat) : RPart → Except Reject (Nat × Bool)
+  | .slice _ b _ =>
+    match b with
+    | none =>
+      match vm with
+      | none => .error .reject
+      | some vm => .ok (match ext with | some e => max e vm | none => vm, true)
+    | some b =>
+      match ext with
+      | some e => .ok (if (e : Int) < b then b.toNat else e, true)
+      | none => if 0 < b then .ok (b.toNat, true) else .error .reject
+  | .int i =>
+    if i < 0 then .error .reject
+    else .ok (match ext with | some e => max e (i.toNat + 1) | none => i.toNat + 1, false)
+  | .list is =>
+    match vm with
+    | none => .error .reject
+    | some vm =>
+      if is.length = vm ∧ !is.isEmpty then
+        .ok (match ext with | some e => max e (maxNat is + 1) | none => maxNat is + 1, true)
+      else .error .reject
+
+/-- New size of `_set_subtensor` for a sparse-tensor right-hand side of shape `vs`
+(consumed mode by mode); a key shorter than the order is refused. -/
+def newSizeSparse : List Nat → List RPart → List Nat → Except Reject (List Nat)
+  | [], [], _ => .ok []
+  | _ :: _, [], _ => .error .reject
+  | [], p :: ps, vs => do
+    let ec ← newExtSparse none vs.head? p
+    let es ← newSizeSparse [] ps (if ec.2 then vs.tail else vs)
+    .ok (ec.1 :: es)
+  | e0 :: s, p :: ps, vs => do
+    let ec ← newExtSparse (some e0) vs.head? p
+    let es ← newSizeSparse s ps (if ec.2 then vs.tail else vs)
+    .ok (ec.1 :: es)
+
+/-- the index list of every key element, tagged "is an integer" (for `tt_irenumber`) -/
+def tagIdx : List RPart → List (List Nat) → List (List Nat × Bool)
+  | p :: ps, l :: ls => (l, p.isInt) :: tagIdx ps ls
+  | _, _ => []
+
+/-- `_set_subtensor(key, value)` for a sparse-tensor right-hand side `V`: resize, pad the
+stored subscripts, delete what occupies the region, append the value's entries renumbered
+by `tt_irenumber`. -/
 def setSubtensorSparse [Zero α] (S : Sparse α) (parts : List RPart) (V : Sparse α) :
     Except Reject (Sparse α) := do
-  let n := S.shape.length
-  -- newsz, with `m` counting the modes of the value used so far
-  let step (acc : Except Reject (List Nat × Nat)) (d : Nat) : Except Reject (List Nat × Nat) := do
-    let (sz, m) ← acc
-    let ext := S.shape.getD d 0
-    match parts.getD d (.int 0) with
-    | .slice _ b _ =>
-      if m < V.shape.length ∨ b.isSome then
-        let vm := V.shape.getD m 0
-        let e : Except Reject Nat :=
-          match b with
-          | none => .ok (if d < n then max ext vm else vm)
-          | some b =>
-            if d < n then .ok (if (ext : Int) < b then b.toNat else ext)
-            else if 0 < b then .ok b.toNat else .error .reject
-        let e ← e
-        .ok (sz ++ [e], m + 1)
-      else .error .reject
-    | .int i =>
-      if i < 0 then .error .reject
-      else .ok (sz ++ [if d < n then max ext (i.toNat + 1) else i.toNat + 1], m)
-    | .list is =>
-      if m < V.shape.length ∧ is.length = V.shape.getD m 0 ∧ !is.isEmpty then
-        .ok (sz ++ [if d < n then max ext (maxNat is + 1) else maxNat is + 1], m + 1)
-      else .error .reject
-  let (shape', _) ← (List.range parts.length).foldl step (.ok ([], 0))
+  let shape' ← newSizeSparse S.shape parts V.shape
   let subs' := if S.subs.isEmpty then S.subs else padSubs S.subs shape'.length
   let S' : Sparse α := ⟨shape', subs', S.vals⟩
   let idx ← regionIdx shape' parts
-  if parts.length < n then .error .reject
   let rmloc := if subs'.isEmpty then [] else S'.subdims idx
   let kploc := setdiff1d (List.range subs'.length) rmloc
   let kept := S'.takeAt kploc
-  let tagged := (List.range parts.length).map fun d =>
-    (idx.getD d [], match parts.getD d (.int 0) with | .int _ => true | _ => false)
-  let addsubs ← V.subs.mapM (irenumberRow tagged)
+  let addsubs ← V.subs.mapM (irenumberRow (tagIdx parts idx))
   .ok ⟨shape', kept.subs ++ addsubs, kept.vals ++ V.vals⟩
 
 /-- `sptensor.__setitem__`. -/
@@ -320,11 +344,6 @@ def renumberCoord (l : List Nat) (isInt : Bool) (x : Nat) : Nat :=
   else match (l.reverse).findIdx? (· == x) with
     | some k => l.length - 1 - k
     | none => 0
-
-/-- A (rewritten) key element is an integer. -/
-def _root_.Pyttb.RPart.isInt : RPart → Bool
-  | .int _ => true
-  | _ => false
 
 /-- The key element is the full slice `:` (`tt_renumber` leaves such a mode as it is). -/
 def _root_.Pyttb.RPart.isFullSlice : RPart → Bool
